@@ -161,14 +161,14 @@ pub fn parse_result(input_len: usize, r: &ParseRes, with_rest: bool) -> J {
     match r {
         Err(_) => json!({"v": "panic"}),
         Ok(Ok((rest, ParsedMessage::Item(m)))) => {
-            let mut o = json!({"v": "msg", "consumed": input_len - rest.len(), "m": message(m)});
+            let mut o = json!({"v": "msg", "consumed": input_len.saturating_sub(rest.len()), "m": message(m)});
             if with_rest {
                 o["rest"] = bytes(rest);
             }
             o
         }
-        Ok(Ok((rest, ParsedMessage::FilteredOut(n)))) => json!({"v": "filtered", "consumed": input_len - rest.len(), "n": n}),
-        Ok(Ok((rest, ParsedMessage::Invalid))) => json!({"v": "invalid", "consumed": input_len - rest.len()}),
+        Ok(Ok((rest, ParsedMessage::FilteredOut(n)))) => json!({"v": "filtered", "consumed": input_len.saturating_sub(rest.len()), "n": n}),
+        Ok(Ok((rest, ParsedMessage::Invalid))) => json!({"v": "invalid", "consumed": input_len.saturating_sub(rest.len())}),
         Ok(Err(DltParseError::IncompleteParse { needed })) => json!({"v": "inc", "hint": match needed { Some(n) => json!([n.get()]), None => json!([]) }}),
         Ok(Err(_)) => json!({"v": "rej"}),
     }
